@@ -39,7 +39,7 @@ pub enum Probe {
 }
 pub const N_PROBES: usize = 24;
 pub const PROBE_NAMES: [&str; N_PROBES] = [
-    "multi_cas_retry",
+    "commit_cas_lost_race",
     "pin_conflict_full",
     "pin_recheck_failed",
     "max_diff_none",
